@@ -767,6 +767,19 @@ def check_do_call(ck, batch, tab, filters, kw, cls):
     every filter application of the chain goes through the oracle and the model"""
     case = {'do_call': {'filters': filters, 'kw': kw}, 'table': tab}
     res = run_do_call(tab, filters, kw)
+    # the same table under REPEATED row labels: do_call resets a non-unique index before the cn-based filters
+    # (cnvlib/call.py, the second filter loop), so the answer must not depend on the labels.  (ci / sem act before that
+    # reset and assert unique labels: lists holding them are not run this way.)
+    if not isinstance(res, Err) and filters and not any(f in ('ci', 'sem') for f in filters) and len(tab['rows']) >= 2 \
+            and (len(ck.hashes) + len(tab['rows'])) % 3 == 0:
+        rep = dict(tab)
+        rep['index'] = [i // 2 for i in range(len(tab['rows']))]
+        res_rep = run_do_call(rep, filters, kw)
+        ck.count({'do_call_repeated_labels': {'filters': filters, 'kw': kw}, 'table': rep}, nontrivial=True, cls=cls + ':repeated-labels')
+        if not same_table(res, res_rep):
+            ck.violation('do_call(filters=%r) answers differently when the row labels repeat' % (filters,),
+                         {'do_call': {'filters': filters, 'kw': kw}, 'table': rep}, code=res_rep, expected=res,
+                         clause='C14_do_call_labels')
     pre = [f for f in ('ci', 'sem') if f in filters]
     rest = [f for f in filters if f not in ('ci', 'sem')]
     stage = tab
